@@ -383,6 +383,16 @@ inline bool check_order(World const& w, std::vector<Issue> const& issues, std::v
       violation("C05", "timestamp-not-read-during-the-call", J{}.unum("tid", p.tid).unum("seq", p.seq).unum("ts", e.ts).unum("clock_before_call", b.ts_lo).unum("clock_after_call", b.clk_ret).str("scenario", scen).raw("cfg", w.describe()));
       return false;
     }
+    // ... at its START: a call that had to wait for room in its queue read the clock before it began to wait
+    if (b.clk_first_block)
+    {
+      stat_add("order_blocked_calls_whose_timestamp_was_judged");
+      if (e.ts > b.clk_first_block + tol)
+      {
+        violation("C05", "timestamp-not-taken-at-the-start-of-the-log-call", J{}.unum("tid", p.tid).unum("seq", p.seq).unum("ts", e.ts).unum("clock_before_call", b.ts_lo).unum("clock_when_the_call_first_found_its_queue_full", b.clk_first_block).unum("clock_after_call", b.clk_ret).str("scenario", scen).raw("cfg", w.describe()));
+        return false;
+      }
+    }
     auto& m = maxts[e.sink];
     if (e.ts < m.first)
     {
